@@ -86,6 +86,14 @@ def run(chk, repo):
             continue
         ec = next(c for c in ast.walk(nodes[emits[0]].ast) if isinstance(c, ast.Call) and call_name(c) == 'AnnotatedPeptideLabel')
         lab = unparse(ec.args[0]) if ec.args else None
+        inline_idx = None
+        if ec.args and isinstance(ec.args[0], ast.JoinedStr):
+            # AnnotatedPeptideLabel(f'{label}|{index}', ...): the index is attached in the emitting expression itself
+            vals = ec.args[0].values
+            if len(vals) == 3 and isinstance(vals[0], ast.FormattedValue) and isinstance(vals[0].value, ast.Name) and isinstance(vals[1], ast.Constant) \
+                    and vals[1].value == '|' and isinstance(vals[2], ast.FormattedValue):
+                lab = vals[0].value.id
+                inline_idx = unparse(vals[2].value)
         uniq = [i for i, n in enumerate(nodes) if isinstance(n.ast, ast.Expr) and isinstance(n.ast.value, ast.Call) and call_name(n.ast.value) == 'add'
                 and [unparse(a) for a in n.ast.value.args] == [lab]]
         idx = []
@@ -98,6 +106,10 @@ def run(chk, repo):
                     stored_names = {unparse(nodes[k].ast.value) for k in stores if isinstance(nodes[k].ast, ast.Assign)}
                     if vt == f'{COUNTER}[{lab}]' or vt in stored_names:
                         idx.append(i)
+        if inline_idx is not None and not idx and len(stores) == 1:
+            stored_names = {unparse(nodes[k].ast.value) for k in stores if isinstance(nodes[k].ast, ast.Assign)}
+            if inline_idx == f'{COUNTER}[{lab}]' or inline_idx in stored_names:
+                idx = [emits[0] - 0.5]          # the index is read in the emitting statement, after the store
         good = lab is not None and len(emits) == 1 and len(idx) == 1 and len(stores) == 1 and len(uniq) == 1 and uniq[0] < stores[0] < idx[0] < emits[0] \
             and store_ok(nodes[stores[0]].ast, lab)
         if not good:
